@@ -6,6 +6,8 @@ import (
 	"strings"
 	"sync"
 	"time"
+
+	"golang.org/x/tools/go/ssa"
 )
 
 // C05 bounded API obligations: the real NewVersionRange+Contains of each ecosystem against the interval its
@@ -494,4 +496,30 @@ func (w *World) shorthandVCs() []VC {
 		}
 	}
 	return vcs
+}
+
+// shorthandFalsifier is the replay for a failed C05 contract clause: the first difference the ecosystem's per-construct
+// harness finds on the real NewVersionRange+Contains.
+func shorthandFalsifier(w *World, fn *ssa.Function, r vcResult) *Counterexample {
+	eco := strings.SplitN(r.vc.Fn, ".", 2)[0]
+	res := runShorthand(w, eco)
+	cx := &Counterexample{How: "real " + eco + " NewVersionRange+Contains against the documented interval of every shorthand construct", Output: truncate(lastLines(res.out, 8), 1500), Observed: "no difference observed"}
+	var keys []string
+	for k := range res.lines {
+		keys = append(keys, k)
+	}
+	sort.Strings(keys)
+	known := map[string]bool{}
+	for _, f := range loadFindings() {
+		known[f.Obligation] = true
+	}
+	for _, k := range keys {
+		ln := res.lines[k]
+		if strings.HasPrefix(ln, "OK") || known[eco+".(*Ecosystem).NewVersionRange.shorthand["+k+"].bounded"] {
+			continue
+		}
+		cx.Confirmed, cx.Observed = true, k+": "+ln
+		break
+	}
+	return cx
 }
